@@ -1,7 +1,7 @@
-(* Stages B - F of C01_back: programs over variables.  A program is a list of statements - declarations `x := e`
+(* Stages B - G of C01_back: programs over variables.  A program is a list of statements - declarations `x := e`
    (at the top level AND inside blocks: a variable declared in a block is visible until the block ends), assignments
    `x = e`, `x += e` (also -= *= /=), `x++`, `x--`, expression statements, conditionals `if c { ... } else { ... }` /
-   `if c { ... }`, condition loops `for c { ... }` and three-clause loops `for x := e; c; p { ... }` (p one of
+   `if c { ... }`, plain loops `for { ... }`, condition loops `for c { ... }` and three-clause loops `for x := e; c; p { ... }` (p one of
    `x_i = e`, `x_i op= e`, `x_i++`, `x_i--`) with break and continue, whose blocks are again lists of
    statements, nested to any depth - over the scalar expressions of ScalarFrag.v.  A variable is referred to by its
    position among the variables VISIBLE at that point (in declaration order); the compiler gives the d-th declaration
@@ -23,6 +23,7 @@ Inductive stmt :=
 | SIf (c : sexp) (t e : list stmt)       (* if c { t } else { e } *)
 | SIf1 (c : sexp) (t : list stmt)        (* if c { t } *)
 | SWhile (c : sexp) (b : list stmt)      (* for c { b } *)
+| SLoop (b : list stmt)                  (* for { b } *)
 | SFor (e c : sexp) (p : stmt) (b : list stmt)   (* for x := e; c; p { b } : x is visible in c, p and b; p is x_i = .., x_i op= .., x_i++ *)
 | SBreak | SContinue.                    (* only inside a loop body *)
 
@@ -34,7 +35,7 @@ Fixpoint nd (s : stmt) : nat :=
   match s with
   | SDecl _ => 1
   | SIf _ t e => sum_list nd t + sum_list nd e
-  | SIf1 _ b | SWhile _ b => sum_list nd b
+  | SIf1 _ b | SWhile _ b | SLoop b => sum_list nd b
   | SFor _ _ _ b => S (sum_list nd b)
   | _ => 0
   end.
@@ -63,6 +64,7 @@ Fixpoint embed_stmt (names : list (list N)) (k : nat) (scope : list nat) (s : st
                      (Some (embed_list (embed_stmt names) (k + sum_list nd t) scope e))
   | SIf1 c t => NIf (embed vn c) (embed_list (embed_stmt names) k scope t) None
   | SWhile c b => NFor (Some (embed vn c)) None None (embed_list (embed_stmt names) k scope b)
+  | SLoop b => NFor None None None (embed_list (embed_stmt names) k scope b)
   | SFor e c p b => let sc1 := scope ++ [k] in
                     NFor (Some (embed (vnames names sc1) c)) (Some (NVar (nth k names []) (embed vn e)))
                          (Some (embed_stmt names (S k) sc1 p)) (embed_list (embed_stmt names) (S k) sc1 b)
@@ -88,6 +90,7 @@ Fixpoint wf_stmt (lp : bool) (n : nat) (s : stmt) {struct s} : bool :=
   | SIf c t e => wf n c && wf_list (wf_stmt lp) n t && wf_list (wf_stmt lp) n e
   | SIf1 c t => wf n c && wf_list (wf_stmt lp) n t
   | SWhile c b => wf n c && wf_list (wf_stmt true) n b
+  | SLoop b => wf_list (wf_stmt true) n b
   | SFor e c p b => wf n e && wf (S n) c && is_simple p && wf_stmt lp (S n) p && wf_list (wf_stmt true) (S n) b
   | SBreak | SContinue => lp
   end.
@@ -101,6 +104,7 @@ Fixpoint sheight (s : stmt) : nat :=
   | SInc _ _ => 0
   | SIf c t e => S (Nat.max (height c) (Nat.max (max_list sheight 0 t) (max_list sheight 0 e)))
   | SIf1 c b | SWhile c b => S (Nat.max (height c) (max_list sheight 0 b))
+  | SLoop b => S (max_list sheight 0 b)
   | SFor e c p b => S (Nat.max (height e) (Nat.max (height c) (Nat.max (sheight p) (max_list sheight 0 b))))
   | SBreak | SContinue => 0
   end.
@@ -111,6 +115,7 @@ Fixpoint sneed (s : stmt) : nat :=
   | SInc _ _ => 2
   | SIf c t e => Nat.max (need c) (Nat.max (max_list sneed 1 t) (max_list sneed 1 e))
   | SIf1 c b | SWhile c b => Nat.max (need c) (max_list sneed 1 b)
+  | SLoop b => max_list sneed 1 b
   | SFor e c p b => Nat.max (need e) (Nat.max (need c) (Nat.max (sneed p) (max_list sneed 1 b)))
   | SBreak | SContinue => 1
   end.
@@ -200,6 +205,11 @@ Fixpoint run_stmt (fuel : nat) (rho : list sval) (s : stmt) {struct fuel} : resu
                         else Some (inl (rho, VNil))
                     | inr x => Some (inr (StErr x))
                     end
+    | SLoop b => match run_block (run_stmt f) rho b with
+                 | Some (inl (rho', _)) | Some (inr (StCont rho')) => run_stmt f rho' (SLoop b)
+                 | Some (inr (StBrk rho')) => Some (inl (rho', VNil))
+                 | other => other
+                 end
     | SFor e c p b => match sev rho e with
                       | inl v => option_map (trunc (length rho)) (loop3 (run_stmt f) c p b f (rho ++ [v]))
                       | inr x => Some (inr (StErr x))
@@ -262,6 +272,11 @@ Fixpoint stmt_code (k : nat) (scope : list nat) (base : nat) (s : stmt) {struct 
       let inner := I cc ++ I [opPopJumpForwardIfFalse; (nlen cb + 6)%N] ++ cb ++ I [opPopTop] in
       let jb := nlen inner in
       (patch 0 (jb + 2) jb inner ++ I [opJumpBackward; jb; opNop], kc ++ kb)
+  | SLoop b =>
+      let '(cb, kb) := block_layout stmt_code k scope base b in
+      let inner := cb ++ I [opPopTop] in
+      let jb := nlen inner in
+      (patch 0 (jb + 2) jb inner ++ I [opJumpBackward; jb; opNop], kb)
   | SFor e c p b =>
       (* init; then the loop proper: head (condition, exit jump), body, PopTop, post, JumpBackward; break jumps behind the
          JumpBackward, continue to the post statement *)
